@@ -79,6 +79,9 @@ def run(prog, rep):
     jobs += [("stockdriven", c) for c in SC.int_driver_configs(rep.tier) + SC.layout_configs(rep.tier)]
     jobs += [("stockdriven", dict(n_t=3, labels=(), dist=d, over="number", n_pts=n, inflow_at=ia, via_to_stock_type=True))
              for d in ("NormalLifetime", "FixedLifetime") for n, ia in ((1, "middle"), (1, "start"), (2, "middle"))]
+    # inflow at the END of the period (the diagonal of the survival table is the share surviving an age of zero) and two points with it
+    jobs += [("stockdriven", dict(n_t=3, labels=(), dist=d, over="number", n_pts=n, inflow_at="end", both_generic=True))
+             for d in ("NormalLifetime", "LogNormalLifetime") for n in (1, 2)]
     jobs += [("zero", c) for c in SC.dsm_configs(rep.tier) if c["n_pts"] == 1 and c["n_t"] == 3 and len(c["labels"]) <= 1 and c["over"] in ("number", "all")]
     run_stock_property(prog, rep, "C10", jobs, {"inverse": "C10.inverse", "converse": "C10.converse", "solvers-agree": "C10.solvers-agree"})
     rep.rules["C10.inverse"]["floor"] = 40
